@@ -61,6 +61,11 @@ def records(wd, tier):
         allw = [pv(1), pv(2), pv(3), pv(4)]
         cps = [[allw, []]] * 6 + [[allw, [pv(1 + (gi + j) % 4)]] for j in range(6)]
         items.append({"g": gr, "gid": f"A4c-{gi}", "vars": [], "evs": [], "comps": cps, "comp_orders": 6})
+    # graphs without directed edges: every ancestral set is a singleton, so all the merging is done by the bidirected
+    # stage (four sets, chains of merges); twelve insertion orders each
+    for gi, gr in enumerate([x for x in g4["graphs"] if not x["d"] and len(x["b"]) >= 2]):
+        allw = [pv(1), pv(2), pv(3), pv(4)]
+        items.append({"g": gr, "gid": f"A4b-{gi}", "vars": [], "evs": [], "comps": [[allw, []]] * 12, "comp_orders": 12})
     shards = [items[i::NCPU] for i in range(NCPU)]
     jobs = []
     for i, sh in enumerate(shards):
